@@ -74,16 +74,20 @@ enum Step {
 }
 
 /// symbol = AliasMapping(state & 0xFFF); state = D[symbol] * (state >> 12) + offset;
-/// if (state < 2^16) state = (state << 16) | u(16).      (evaluated in u64: no wrap-around hidden)
+/// if (state < 2^16) state = (state << 16) | u(16).
+/// The product is written `(state >> 12) * D[symbol]` in u32 (Rust's checked arithmetic: the spec itself
+/// asserts that nothing wraps; under wf_slot D <= 4096 and offset < D, so the value is < 2^32). The operand
+/// order is that of the code on purpose: proving commutativity of a 32-bit multiplier is out of reach for SAT.
 fn spec_ans_step(h: &Histogram, state: u32, v: &View, p: usize) -> Step {
     let (s, off) = spec_alias_lookup(h, state & 0xfff);
-    let d = h.buckets[s].dist as u64;
-    let next = d * (state >> 12) as u64 + off as u64;
+    let d = h.buckets[s].dist as u32;
+    // no overflow under wf_slot: (2^20 - 1) * 4096 + 4095 < 2^32 (d <= 4096, off < d)
+    let next = (state >> 12).wrapping_mul(d).wrapping_add(off);
     if next < (1 << 16) {
         if !v.has(p, 16) { return Step::Eof; }
-        Step::Ok { symbol: s as u32, state: ((next << 16) | v.u(p, 16) as u64) as u32, used: 16 }
+        Step::Ok { symbol: s as u32, state: (next << 16) | v.u(p, 16), used: 16 }
     } else {
-        Step::Ok { symbol: s as u32, state: next as u32, used: 0 }
+        Step::Ok { symbol: s as u32, state: next, used: 0 }
     }
 }
 
@@ -91,22 +95,11 @@ fn spec_ans_step(h: &Histogram, state: u32, v: &View, p: usize) -> Step {
 // read_symbol == spec_ans_step for every wf table
 // ------------------------------------------------------------------------------------------------
 fn any_buckets<const N: usize>() -> Vec<Bucket> {
-    // all bit patterns of the 8-byte repr(C) Bucket are valid values
+    // all bit patterns of the 8-byte repr(C) Bucket are valid values (the code itself transmutes Bucket -> u64);
+    // built without a loop so that the harness needs no large unwinding bound
     let raw: [u64; N] = kani::any();
-    let mut v = Vec::with_capacity(N);
-    let mut i = 0;
-    while i < N {
-        let r = raw[i];
-        v.push(Bucket {
-            alias_symbol: r as u8,
-            alias_cutoff: (r >> 8) as u8,
-            dist: (r >> 16) as u16,
-            alias_offset: (r >> 32) as u16,
-            alias_dist_xor: (r >> 48) as u16,
-        });
-        i += 1;
-    }
-    v
+    let arr: [Bucket; N] = unsafe { std::mem::transmute_copy(&raw) };
+    <[Bucket]>::into_vec(Box::new(arr))
 }
 
 fn any_table(log_alphabet_size: u32) -> Histogram {
@@ -124,17 +117,17 @@ fn any_table(log_alphabet_size: u32) -> Histogram {
     h
 }
 
+/// Full stream: the 16 refill bits are always there (16-byte buffer, start offset <= 15 bits).
 fn read_symbol_step(log_alphabet_size: u32) {
     let h = any_table(log_alphabet_size);
     assert!(h.log_bucket_size == 12 - log_alphabet_size);
     let state0: u32 = kani::any();
     kani::assume(wf_slot(&h, state0 & 0xfff));
     let data: [u8; 16] = kani::any();
-    let len: usize = kani::any();
     let off: usize = kani::any();
-    kani::assume(len <= 16 && off <= 15);
-    let view = View::of(&data, len);
-    let mut bs = Bitstream::new(&data[..len]);
+    kani::assume(off <= 15);
+    let view = View::of(&data, 16);
+    let mut bs = Bitstream::new(&data);
     if bs.skip_bits(off).is_err() { return; }
     let mut state = state0;
     let r = h.read_symbol(&mut bs, &mut state);
@@ -144,37 +137,105 @@ fn read_symbol_step(log_alphabet_size: u32) {
             assert!(*sym == symbol, "[C04] ANS symbol = AliasMapping(state & 0xFFF).symbol");
             assert!(state == s1, "[C04] ANS state = D[symbol] * (state >> 12) + offset, refilled with u(16) iff it drops below 2^16");
             assert!(bs.num_read_bits() == off + used, "[C04] 16 bits consumed iff the state dropped below 2^16, else none");
-            let next = bs.read_bits(16);
-            if view.has(off + used, 16) {
-                assert!(matches!(next, Ok(x) if x == view.u(off + used, 16)), "[C04] unread bits preserved");
-            }
         }
-        (Step::Eof, Err(e)) => {
-            assert!(e.unexpected_eof(), "[C11] ANS refill past the end of data is unexpected-eof");
-            assert!(bs.num_read_bits() == off, "[C11] nothing consumed by the failed step");
-        }
-        (Step::Ok { .. }, Err(_)) => assert!(false, "[C04,C11] ANS step failed although the stream holds the refill bits"),
-        (Step::Eof, Ok(_)) => assert!(false, "[C11] ANS step returned a symbol although the 16 refill bits are missing"),
+        _ => assert!(false, "[C04,C11] ANS step failed although the stream holds the refill bits"),
     }
-    kani::cover!(matches!(&r, Ok(_)) && bs.num_read_bits() == off + 16);
-    kani::cover!(matches!(&r, Ok(_)) && bs.num_read_bits() == off);
-    kani::cover!(r.is_err());
+    let pos = bs.num_read_bits();
+    let next = bs.read_bits(16);
+    assert!(matches!(next, Ok(x) if x == view.u(pos, 16)), "[C04] unread bits preserved");
+    kani::cover!(matches!(&r, Ok(_)) && pos == off + 16);
+    kani::cover!(matches!(&r, Ok(_)) && pos == off);
     kani::cover!(matches!(&r, Ok(s) if *s as usize != ((state0 & 0xfff) >> h.log_bucket_size) as usize)); // alias branch
     kani::cover!(state0 == u32::MAX);
 }
 
 #[kani::proof]
-#[kani::unwind(33)]
+#[kani::solver(kissat)]
+#[kani::unwind(9)]
 fn read_symbol_contract_las5() { read_symbol_step(5); }
 #[kani::proof]
-#[kani::unwind(65)]
+#[kani::solver(kissat)]
+#[kani::unwind(9)]
 fn read_symbol_contract_las6() { read_symbol_step(6); }
 #[kani::proof]
-#[kani::unwind(129)]
+#[kani::solver(kissat)]
+#[kani::unwind(9)]
 fn read_symbol_contract_las7() { read_symbol_step(7); }
 #[kani::proof]
-#[kani::unwind(257)]
+#[kani::solver(kissat)]
+#[kani::unwind(9)]
 fn read_symbol_contract_las8() { read_symbol_step(8); }
+
+/// [C11] Cut stream (<= 3 bytes, so the 16 refill bits may be missing): the step is still spec_ans_step, whose
+/// Eof outcome ("refill needed and fewer than 16 bits left") is the ONLY way it can fail, and the failure is
+/// unexpected-eof with nothing consumed. Since spec_ans_step reads the stream only through the 16 refill bits,
+/// its result on a prefix is either Eof or its result on the whole stream: the prefix lemma.
+#[kani::proof]
+#[kani::solver(kissat)]
+#[kani::unwind(9)]
+fn read_symbol_cut_stream() {
+    let h = any_table(5);
+    let state0: u32 = kani::any();
+    kani::assume(wf_slot(&h, state0 & 0xfff));
+    let data: [u8; 16] = kani::any();
+    let len: usize = kani::any();
+    let off: usize = kani::any();
+    kani::assume(len <= 3 && off <= 7);
+    let view = View::of(&data, len);
+    let mut bs = Bitstream::new(&data[..len]);
+    if bs.skip_bits(off).is_err() { return; }
+    let mut state = state0;
+    let r = h.read_symbol(&mut bs, &mut state);
+    match (spec_ans_step(&h, state0, &view, off), &r) {
+        (Step::Ok { symbol, state: s1, used }, Ok(sym)) => {
+            assert!(*sym == symbol && state == s1 && bs.num_read_bits() == off + used, "[C04,C11] same step as on the full stream");
+        }
+        (Step::Eof, Err(e)) => {
+            assert!(e.unexpected_eof(), "[C11] ANS refill past the end of data is unexpected-eof");
+            assert!(bs.num_read_bits() == off, "[C11] nothing consumed by the failed step");
+        }
+        (Step::Ok { .. }, Err(_)) => assert!(false, "[C11] ANS step failed although the stream holds the refill bits"),
+        (Step::Eof, Ok(_)) => assert!(false, "[C11] ANS step returned a symbol although the 16 refill bits are missing"),
+    }
+    kani::cover!(r.is_err());
+    kani::cover!(r.is_ok() && bs.num_read_bits() == off + 16);
+    kani::cover!(r.is_ok() && len * 8 == off);
+}
+
+/// [C11] prefix lemma, relational: the step on any prefix of the data either does exactly what it does on the
+/// whole data (symbol, state, position) or fails with unexpected-eof without consuming anything. (On Err the
+/// `state` has already been overwritten with a zero-extended refill: the decoder must be discarded, which is
+/// what every caller does -- they propagate the error with `?`.)
+#[kani::proof]
+#[kani::solver(kissat)]
+#[kani::unwind(9)]
+fn read_symbol_prefix_lemma() {
+    let h = any_table(5);
+    let state0: u32 = kani::any();
+    kani::assume(wf_slot(&h, state0 & 0xfff));
+    let data: [u8; 4] = kani::any();
+    let len: usize = kani::any();
+    let cut: usize = kani::any();
+    let off: usize = kani::any();
+    kani::assume(len <= 4 && cut <= len && off <= 7);
+    let mut full = Bitstream::new(&data[..len]);
+    let mut pre = Bitstream::new(&data[..cut]);
+    if pre.skip_bits(off).is_err() || full.skip_bits(off).is_err() { return; }
+    let (mut sf, mut sp) = (state0, state0);
+    let rf = h.read_symbol(&mut full, &mut sf);
+    let rp = h.read_symbol(&mut pre, &mut sp);
+    match (&rp, &rf) {
+        (Ok(a), Ok(b)) => assert!(a == b && sp == sf && pre.num_read_bits() == full.num_read_bits(), "[C11] a prefix never changes the symbol, the state or the position"),
+        (Err(e), _) => {
+            assert!(e.unexpected_eof(), "[C11] a prefix can only fail with unexpected-eof");
+            assert!(pre.num_read_bits() == off, "[C11] a failed step consumes nothing");
+        }
+        (Ok(_), Err(_)) => assert!(false, "[C11] prefix succeeded where the full stream fails"),
+    }
+    kani::cover!(rp.is_err() && rf.is_ok());
+    kani::cover!(rp.is_ok() && cut < len);
+    kani::cover!(rf.is_err());
+}
 
 // ------------------------------------------------------------------------------------------------
 // Histogram::parse establishes wf and builds a bijective alias table for the distribution it read
